@@ -4,6 +4,7 @@ package main
 
 import (
 	"fmt"
+	"strings"
 	"time"
 	. "vh/kit"
 
@@ -705,6 +706,17 @@ func (g *generator) all(run func(*c07Case)) {
 				case "exact":
 					c.VMeta = map[string]string{"e": "", "k": signed}
 				}
+				run(c)
+			}
+		}
+	}
+	// F16 (GoLite round): signing agents of every length — the caller's agent is used whatever it
+	// looks like (GenericSigner.Sign: `opts.SigningAgent != ""` is the only test)
+	for i := 0; i < n(1, 4); i++ {
+		for _, ln := range []int{1, 24, 25, 64, 65, 100, 300, 4096} {
+			for _, kind := range []string{"oci", "blob"} {
+				c := g.base("agent-length", pickKey(), Pick(g.rng, formats), kind, signerKinds[0])
+				c.Agent = strings.Repeat("a", ln-1) + fmt.Sprint(g.rng.Intn(10))
 				run(c)
 			}
 		}
